@@ -349,6 +349,65 @@ func scriptedScenarios() []scenario {
 			}
 			return tag + " OK\r\n"
 		}},
+		{name: "scripted-extension-commands", greeting: "* OK [CAPABILITY IMAP4rev1 LITERAL- QUOTA METADATA SORT THREAD=REFERENCES UNAUTHENTICATE] scripted server with extensions ready\r\n", run: func(x *ctx) {
+			// the commands of the extensions the real server does not implement
+			login(x)
+			max := uint32(100)
+			gm := x.c.GetMetadata("INBOX", []string{"/private/comment", "/shared/x"}, &imapclient.GetMetadataOptions{MaxSize: &max, Depth: imapclient.GetMetadataDepthOne})
+			r := x.issue("GETMETADATA")
+			x.wait(r, "GetMetadata.Wait", func() error { _, err := gm.Wait(); return err })
+			val := []byte("a value\r\nwith two lines")
+			sm := x.c.SetMetadata("INBOX", map[string]*[]byte{"/private/comment": &val})
+			r = x.issue("SETMETADATA")
+			x.wait(r, "SetMetadata.Wait", sm.Wait)
+			gq := x.c.GetQuota("root")
+			r = x.issue("GETQUOTA")
+			x.wait(r, "GetQuota.Wait", func() error { _, err := gq.Wait(); return err })
+			gr := x.c.GetQuotaRoot("INBOX")
+			r = x.issue("GETQUOTAROOT")
+			x.wait(r, "GetQuotaRoot.Wait", func() error { _, err := gr.Wait(); return err })
+			sq := x.c.SetQuota("root", map[imap.QuotaResourceType]int64{imap.QuotaResourceStorage: 512})
+			r = x.issue("SETQUOTA")
+			x.wait(r, "SetQuota.Wait", sq.Wait)
+			crit := &imap.SearchCriteria{Text: []string{"h\u00e9llo"}}
+			so := &imapclient.SortOptions{SearchCriteria: crit, SortCriteria: []imapclient.SortCriterion{{Key: imapclient.SortKeyDate, Reverse: true}}}
+			st := x.c.Sort(so)
+			r = x.issue("SORT")
+			x.wait(r, "Sort.Wait", func() error { _, err := st.Wait(); return err })
+			ust := x.c.UIDSort(so)
+			r = x.issue("UID SORT")
+			x.wait(r, "Sort.Wait", func() error { _, err := ust.Wait(); return err })
+			to := &imapclient.ThreadOptions{Algorithm: imap.ThreadReferences, SearchCriteria: crit}
+			th := x.c.Thread(to)
+			r = x.issue("THREAD")
+			x.wait(r, "Thread.Wait", func() error { _, err := th.Wait(); return err })
+			uth := x.c.UIDThread(to)
+			r = x.issue("UID THREAD")
+			x.wait(r, "Thread.Wait", func() error { _, err := uth.Wait(); return err })
+			ua := x.c.Unauthenticate()
+			r = x.issue("UNAUTHENTICATE")
+			x.wait(r, "Unauthenticate.Wait", ua.Wait)
+			r = x.issue("LOGOUT")
+			x.wait(r, "Logout.Wait", x.c.Logout().Wait)
+		}, peer: func(tag, name, line string) string {
+			switch name {
+			case "SELECT":
+				return selectResp(tag)
+			case "GETMETADATA":
+				return "* METADATA \"INBOX\" (/private/comment {5}\r\nhello /shared/x NIL)\r\n" + tag + " OK [METADATA LONGENTRIES 2199] done\r\n"
+			case "GETQUOTA", "SETQUOTA":
+				return "* QUOTA \"root\" (STORAGE 10 512)\r\n" + tag + " OK done\r\n"
+			case "GETQUOTAROOT":
+				return "* QUOTAROOT INBOX \"root\" other\r\n* QUOTA \"root\" (STORAGE 10 512 MESSAGE 1 2)\r\n* QUOTA other ()\r\n" + tag + " OK done\r\n"
+			case "SORT", "UID SORT":
+				return "* SORT 3 1 2\r\n" + tag + " OK sorted\r\n"
+			case "THREAD", "UID THREAD":
+				return "* THREAD (1 2)(3 (4)(5 6))\r\n" + tag + " OK threaded\r\n"
+			case "LOGOUT":
+				return "* BYE\r\n" + tag + " OK\r\n"
+			}
+			return tag + " OK\r\n"
+		}},
 		{name: "scripted-odd-but-valid-responses", run: func(x *ctx) {
 			login(x)
 			l := x.c.List("", "*", &imap.ListOptions{ReturnStatus: &imap.StatusOptions{NumMessages: true}})
